@@ -80,7 +80,12 @@ func (c *Ctx) valueOf(st *State, fr *Frame, v ssa.Value) T {
 	case *ssa.Const:
 		return c.constOf(x)
 	case *ssa.Global:
-		return T{S: c.reg.Global(x.Pkg.Pkg.Path() + "." + x.Name()), So: "Addr", Ty: x.Type(), NonNil: true}
+		ga := c.reg.Global(x.Pkg.Pkg.Path() + "." + x.Name())
+		if pt, ok := x.Type().Underlying().(*types.Pointer); ok && st != nil {
+			c.reg.SortOf(pt.Elem())
+			c.reg.AddDecl("gtype:"+ga, fmt.Sprintf("(assert (= (atype %s) %d))", ga, c.reg.TypeID(pt.Elem())))
+		}
+		return T{S: ga, So: "Addr", Ty: x.Type(), NonNil: true}
 	case *ssa.Function:
 		return T{S: fmt.Sprintf("(mk_func %d nil)", c.reg.FuncID(x.String())), So: "Func", Ty: x.Type(), Clo: &cloInfo{fn: x}}
 	case *ssa.Builtin:
@@ -315,6 +320,7 @@ func (c *Ctx) execInstr(fr *Frame, b *ssa.BasicBlock, idx int, in ssa.Instructio
 			// in memory can alias it, callees and loop havocs cannot touch it unless listed
 			c.counter++
 			a = T{S: fmt.Sprintf("(base (- %d))", 100000+c.counter), So: "Addr", Fresh: true, NonNil: true}
+			st.assume(fmt.Sprintf("(= (atype %s) %d)", a.S, c.reg.TypeID(elemT)))
 			if arr, ok := elemT.Underlying().(*types.Array); ok && arr.Len() > 16 {
 				c.zeroArray(st, a.S, arr.Elem())
 			} else {
@@ -538,6 +544,7 @@ func (c *Ctx) bumpHeap(st *State) string {
 
 func (c *Ctx) alloc(st *State, elemT types.Type, zero bool) T {
 	addr := c.bumpHeap(st)
+	st.assume(fmt.Sprintf("(= (atype %s) %d)", addr, c.reg.TypeID(elemT)))
 	if zero {
 		if arr, ok := elemT.Underlying().(*types.Array); ok && arr.Len() > 16 {
 			c.zeroArray(st, addr, arr.Elem())
@@ -572,6 +579,7 @@ func (c *Ctx) zeroArray(st *State, arr string, elem types.Type) {
 
 func (c *Ctx) allocArray(st *State, elem types.Type, n string) string {
 	addr := c.bumpHeap(st)
+	st.assume(fmt.Sprintf("(= (atype %s) %d)", addr, c.reg.ArrID(elem)))
 	c.zeroArray(st, addr, elem)
 	return addr
 }
@@ -802,6 +810,7 @@ func (c *Ctx) execConvert(st *State, fr *Frame, x *ssa.Convert) {
 	case fso == "Str" && tso == "Slice":
 		// []byte(s) : fresh array with the same content
 		arr := c.bumpHeap(st)
+		st.assume(fmt.Sprintf("(= (atype %s) %d)", arr, c.reg.ArrID(types.Typ[types.Uint8])))
 		key := leafKey("Int")
 		old := c.mem(st, key)
 		nw := c.freshName("mc_" + sanitize(key))
